@@ -179,6 +179,45 @@ def h_getitem(env, N, L, kind):
     env.goal('receiver_unchanged', b_and(arr_eq(o.gs, g), arr_eq(o.ps, p)))
 
 
+def h_parse_history(env, N, form):
+    """parse a description, change the resulting operator in place, parse the same description again: the second
+    result is the described operator (no state shared between parses, nor with the description)"""
+    M = Mods(env)
+    codes = env.ints('codes', (N,), 0, 3)
+    gg = env.bits('gen', (2 * N,))
+    g_want = oarr([v for k in range(N) for v in (ite(b_or(eq(codes[k], 1), eq(codes[k], 2)), 1, 0), ite(b_or(eq(codes[k], 2), eq(codes[k], 3)), 1, 0))])
+    if form == 'string':
+        desc = '-' + ''.join(LETTER[int(codes[k])] for k in range(N))
+        p_want = 2
+    elif form == 'list':
+        desc = [codes[k] for k in range(N)]
+        p_want = 0
+    elif form == 'array':
+        desc = env.np.array([codes[k] for k in range(N)] + [7]) if env.symbolic else np.array([int(codes[k]) for k in range(N)] + [7])
+        p_want = 3
+    else:
+        desc = {k: codes[k] for k in range(N)}
+        p_want = 0
+    parse = (lambda: M.pa.pauli(desc, N)) if form == 'dict' else (lambda: M.pa.pauli(desc))
+    first = env.run(parse)
+    env.goal('first_parse', b_and(b_not(first.raised), first.value is not None and b_and(arr_eq(first.value.g, g_want), eq(first.value.p, p_want))))
+    if first.value is None:
+        return
+    a = first.value
+    mut = env.run(lambda: a.rotate_by(M.pa.Pauli(gg.copy(), 0)))
+    env.goal('mutation_no_exception', b_not(mut.raised))
+    second = env.run(parse)
+    env.goal('second_parse', b_and(b_not(second.raised), second.value is not None and b_and(arr_eq(second.value.g, g_want), eq(second.value.p, p_want))))
+    if second.value is not None:
+        env.goal('distinct_objects', second.value is not a and not np.shares_memory(second.value.g, a.g))
+    lst = env.run(lambda: M.pa.paulis(desc, desc) if form != 'dict' else M.pa.paulis(desc, desc, N=N))
+    if lst.value is not None:
+        l2 = lst.value
+        ge, pe = ref.ref_rotate(gg, 0, g_want, p_want)
+        r2 = env.run(lambda: l2[0].rotate_by(M.pa.Pauli(gg.copy(), 0)))
+        env.goal('paulis_rows_are_independent_of_each_other', b_and(arr_eq(l2.gs[1], g_want), eq(l2.ps[1], p_want)))
+
+
 def jobs(tier):
     J = []
     nmax = 3 if tier == 'quick' else 4
@@ -188,6 +227,8 @@ def jobs(tier):
     for N in (1, 2):
         for prefix in ('', '+', '-', 'i', '-i', '+i'):
             J.append(dict(harness=('c20', 'h_descriptions'), params=dict(N=N, prefix=prefix), max_paths=30000, timeout_s=60))
+        for form in ('string', 'list', 'array', 'dict'):
+            J.append(dict(harness=('c20', 'h_parse_history'), params=dict(N=N, form=form), max_paths=30000, timeout_s=60))
         for kind in ('Pauli', 'PauliList'):
             J.append(dict(harness=('c20', 'h_phase_arith'), params=dict(N=N, kind=kind)))
         for L in (1, 2, 3):
